@@ -14,7 +14,7 @@ ID = 'C17'
 LEVEL = 'fault_enumeration'
 RULE = ('queries {finite flat facts; a fact whose second argument is a 60-element list (the limit strikes inside the element-by-element match, after the first argument was bound) - compiled and as a dynamic fact, against ground lists and lists of variables; len/2 on lists of length 5, 20, 60; app/3 splitting a list; nat/1 and even/odd '
         '(infinitely many answers, each deeper); left recursion lp(X) :- lp(X). lp(a). (diverges before any answer); a '
-        'rule with a deep failing branch between answers; registered Python predicates whose clean-up (finally) code needs 0, 3, 12 or 30 nested calls, queried directly and through call/1} x EVERY recursion_limit from 8 to 400 (each value moves the '
+        'rule with a deep failing branch between answers; registered Python predicates whose clean-up (finally) code needs 0, 3, 12 or 30 nested calls, queried directly and through call/1; predicates answered from two sources (dynamic facts followed by compiled clauses, dynamic facts followed by a Python predicate)} x EVERY recursion_limit from 8 to 400 (each value moves the '
         'point at which the limit strikes; quick: every value up to 89, then every 7th) x projection functions {identity, observe the variables, '
         'raise ValueError at the k-th answer for k=1..5, raise RuntimeError at the 2nd, raise StopIteration at the 2nd, run a bounded sub-query on the same engine for every answer (nested evaluate_bounded, inner limit 150 / 500)}, '
         'called from a shallow stack. Checked: no RecursionError escapes; the result is a prefix of RefProlog\'s answer '
@@ -38,6 +38,8 @@ PROGRAM = [
     # a fact with a long ground list behind an ordinary argument: when the limit strikes while the
     # lists are being matched element by element, the first argument is already bound
     (F('big', A('first'), L([C(i) for i in range(60)])), None), (F('big', A('second'), L([C(i) for i in range(30)] + [A('x')])), None),
+    # predicates whose answers come from two sources: dynamic facts first, then compiled clauses
+    (F('mixd', A('c1')), None), (F('mixd', A('c2')), None),
     (F('deep', A('first')), None), (F('deep', X), conj(call(F('len', V('Lg'), F('s', F('s', F('s', A('z')))))), call(F('nat', X)))),
 ]
 
@@ -45,7 +47,8 @@ PROGRAM = [
 PY_DEPTHS = [0, 3, 12, 30]
 
 
-DYN_FACTS = [F('bigd', A('first'), L([C(i) for i in range(60)])), F('bigd', A('second'), L([C(i) for i in range(45)] + [A('x')]))]
+DYN_FACTS = [F('bigd', A('first'), L([C(i) for i in range(60)])), F('bigd', A('second'), L([C(i) for i in range(45)] + [A('x')])),
+             F('mixd', A('d1')), F('mixd', A('d2')), F('pyg3', C(0))]
 
 
 def register_python(yp):
@@ -89,7 +92,7 @@ def queries():
         [('big-dynamic', F('bigd', V('Q'), lst(60))), ('big-variables', F('big', V('Q'), L([V('E%d' % i) for i in range(60)]))),
          ('big-dynamic-variables', F('bigd', V('Q'), L([V('E%d' % i) for i in range(45)], V('Et')))),
          ('big', F('big', V('Q'), lst(60))), ('big-tail', F('big', V('Q'), L([C(i) for i in range(30)], V('Q2')))), ('same', F('eqq', lst(60), lst(60)))] + \
-        [('pyg%d' % d, F('pyg%d' % d, V('Q'))) for d in PY_DEPTHS] + [('call-pyg12', F('call', F('pyg12', V('Q'))))]
+        [('mixed-sources', F('mixd', V('Q')))] + [('pyg%d' % d, F('pyg%d' % d, V('Q'))) for d in PY_DEPTHS] + [('call-pyg12', F('call', F('pyg12', V('Q'))))]
 
 
 def bounds(tier):
